@@ -653,8 +653,11 @@ def inline_new_helpers(trees: Dict[str, ast.Module], baseline: Optional[Set[str]
                 for m in st.body:
                     if isinstance(m, ast.FunctionDef):
                         funcs.append((mname, st.name, m, f"{mname}.{st.name}.{m.name}"))
+    # a function of the pinned tree that merely moved between a class and module level (staticmethod <-> function, same module,
+    # same name) is still that function: an anchor, not a new helper
+    base_by_mod_name = {(b.split(".")[0], b.split(".")[-1]) for b in baseline if not b.startswith("const:") and "<locals>" not in b}
     for mname, cname, node, qual in funcs:
-        if qual in baseline:
+        if qual in baseline or ((mname, node.name) in base_by_mod_name and not node.name.startswith("__")):
             continue
         decos = {_deco(d) for d in node.decorator_list}
         kind = "staticmethod" if "staticmethod" in decos else "classmethod" if "classmethod" in decos else ("method" if cname else "function")
